@@ -17,7 +17,7 @@ class BlockRel (R : IndexCtx → IndexCtx → Prop) : Prop where
     (∀ n, Keeps R (r.statementList n)) → ∀ n, Keeps R (Index.indexForeach r n)
 
 section noscope
-variable {R : IndexCtx → IndexCtx → Prop} [StdRel R] [NoScopeRel R]
+variable {R : IndexCtx → IndexCtx → Prop} [CoreRel R] [NoScopeRel R]
 
 theorem scopesPush_noscope (k : ScopeKind) : Keeps R (scopesPush k) :=
   Keeps.modify _ fun c => NoScopeRel.scopes c c _ (KeepRel.refl c)
@@ -41,16 +41,16 @@ end noscope
 section passB
 set_option linter.unusedSectionVars false
 set_option linter.unusedVariables false
-variable {R : IndexCtx → IndexCtx → Prop} [StdRel R] [VarRel R] [BlockRel R] {r : Rec}
+variable {R : IndexCtx → IndexCtx → Prop} [CoreRel R] [VarRel R] [BlockRel R] {r : Rec}
   (hv : ∀ n, Keeps R (r.value n)) (ht : ∀ n, Keeps R (r.typ n))
   (hsl : ∀ n, Keeps R (r.statementList n)) (hsf : ∀ n, Keeps R (r.sourceFile n))
 
-omit [StdRel R] [VarRel R] in
+omit [CoreRel R] [VarRel R] in
 theorem scopesPush_keeps (k : ScopeKind) (hk : ∀ nm id, k ≠ ScopeKind.foreach nm id) : Keeps R (scopesPush k) :=
   BlockRel.push k hk
 macro_rules | `(tactic| keeps_prim) => `(tactic| exact scopesPush_keeps _ (fun _ _ h => nomatch h))
 
-omit [StdRel R] [VarRel R] in
+omit [CoreRel R] [VarRel R] in
 theorem scopesPop_keeps : Keeps R scopesPop := BlockRel.pop
 macro_rules | `(tactic| keeps_prim) => `(tactic| exact scopesPop_keeps)
 
@@ -130,9 +130,8 @@ theorem Index.indexMultiClass_keeps (a0 : _) : Keeps R (Index.indexMultiClass r 
   keeps
 macro_rules | `(tactic| keeps_prim) => `(tactic| (apply Index.indexMultiClass_keeps <;> assumption))
 
-theorem Index.indexInclude_keeps (a0 : _) : Keeps R (Index.indexInclude r a0) := by
-  unfold Index.indexInclude
-  keeps
+theorem Index.indexInclude_keeps (a0 : _) : Keeps R (Index.indexInclude r a0) :=
+  CoreRel.incl r hsf a0
 macro_rules | `(tactic| keeps_prim) => `(tactic| (apply Index.indexInclude_keeps <;> assumption))
 
 theorem Index.indexStatement_keeps (a0 : _) : Keeps R (Index.indexStatement r a0) := by
@@ -155,7 +154,7 @@ end passB
 /-! ### the knot -/
 
 section knot
-variable {R : IndexCtx → IndexCtx → Prop} [StdRel R] [VarRel R] [BlockRel R]
+variable {R : IndexCtx → IndexCtx → Prop} [CoreRel R] [VarRel R] [BlockRel R]
 
 theorem mkRec_keeps (fuel : Nat) :
     (∀ n, Keeps R ((Index.mkRec fuel).value n)) ∧ (∀ n, Keeps R ((Index.mkRec fuel).typ n)) ∧
